@@ -87,6 +87,11 @@ func bndT(a, o, n, i *Term) *Term { return App("bnd", SBool, a, o, n, i) }
 
 // unfoldBnd adds the one-step forward/backward unfolding of bnd(a,o,n,i) under wfp(a,o,n)
 func (x *Exec) unfoldBnd(s *State, a, o, n, i *Term) {
+	x.unfoldBndD(s, a, o, n, i, 1, 0)
+}
+
+// dir: 0 both, -1 backward chain only, +1 forward chain only
+func (x *Exec) unfoldBndD(s *State, a, o, n, i *Term, depth int, dir int) {
 	g := And(wfpT(a, o, n), bndT(a, o, n, i))
 	t := Select(a, Arith("+", o, i))
 	lt := tagLenT(t)
@@ -106,14 +111,28 @@ func (x *Exec) unfoldBnd(s *State, a, o, n, i *Term) {
 		bndT(a, o, n, Arith("-", i, lu)),
 		Eq(Select(a, Arith("-", Arith("+", o, i), lu)), u),
 	))
+	if i == n {
+		fwd = True
+	}
+	if i.rat != nil && i.rat.Sign() == 0 {
+		bwd = True
+	}
 	s.assume(Implies(g, And(Cmp("<=", IntLit(0), i), Cmp("<=", i, n), fwd, bwd)))
+	if depth > 1 {
+		if dir <= 0 {
+			x.unfoldBndD(s, a, o, n, Arith("-", i, lu), depth-1, -1)
+		}
+		if dir >= 0 {
+			x.unfoldBndD(s, a, o, n, Arith("+", i, lt), depth-1, 1)
+		}
+	}
 }
 
 func (x *Exec) mentionWf(s *State, a, o, n *Term) *Term {
 	w := wfpT(a, o, n)
 	s.assume(Implies(w, And(Cmp(">=", n, IntLit(0)), bndT(a, o, n, IntLit(0)), bndT(a, o, n, n))))
-	x.unfoldBnd(s, a, o, n, IntLit(0))
-	x.unfoldBnd(s, a, o, n, n)
+	x.unfoldBndD(s, a, o, n, IntLit(0), 2, 1)
+	x.unfoldBndD(s, a, o, n, n, 2, -1)
 	x.eng.usedWf = true
 	return w
 }
